@@ -1,15 +1,36 @@
 package main
 
-import "verif/harness/sim"
+import (
+	"encoding/json"
+
+	"verif/harness/sim"
+)
 
 func main() {
 	run := sim.NewRun("C13", "exploration")
 	run.SetRule("signing part: one case = one TSS history with paid direct signing requests (limits at cost-1/cost/cost+, poor payer, zero and " +
 		"multi-denom fee_per_signer, retries, fallen signings); a ledger model predicts every account's balance after every block. " +
-		"distinct = evaluated histories")
+		"data-request part: one case = one oracle history of 60 blocks with 1-4 fee-paying requests per block (repeated sources, multi-denom fee vectors, " +
+		"limits one unit short / exact / a denom missing, a poor payer running out at the k-th transfer, a payer that is also a treasury); the model replays the " +
+		"sequential collection. distinct = distinct (source list, ask count, cost, limit, outcome) tuples")
 	run.Assume("tx fees are zero and inflation is off in these worlds so that balance deltas are exactly the service fees")
+	if run.ReplayCase != nil {
+		var c struct {
+			Case  int    `json:"case"`
+			Layer string `json:"layer"`
+		}
+		json.Unmarshal(run.ReplayCase, &c)
+		if c.Layer == "oracle" {
+			dataRequestFees(run, c.Case)
+		} else {
+			signingFees(run)
+		}
+		run.Finish()
+	}
 	signingFees(run)
-	for _, c := range []string{"req-paid", "member-payouts", "req-rejected-over-limit", "ledger-blocks-checked"} {
+	sim.Parallel(run.N(60, 3000), 16, func(i int) { dataRequestFees(run, i) })
+	for _, c := range []string{"req-paid", "member-payouts", "req-rejected-over-limit", "ledger-blocks-checked", "oracle-req-paid", "oracle-req-free",
+		"oracle-req-rejected-over-limit", "oracle-req-rejected-insufficient-balance", "oracle-ledger-blocks-checked"} {
 		run.Require(c, 1)
 	}
 	run.Finish()
